@@ -169,7 +169,7 @@ impl Sched {
             Some("stall") => Some(3),
             _ => None,
         };
-        let drawn = rng.weighted(&[30, 20, 35, 15]);
+        let drawn = rng.weighted(&[35, 20, 25, 20]);
         match forced.unwrap_or(drawn) {
             0 => Sched {
                 kind: "random".into(),
